@@ -192,7 +192,12 @@ fn builtin_line(name: &str, value: &[u8]) -> String {
     )
 }
 
+/// C18: decided by rustc -- the harness does not build unless Router<T> is Send + Sync for such T.
+fn assert_send_sync<T: Send + Sync>() {}
+
 fn main() {
+    assert_send_sync::<Router<u32>>();
+    assert_send_sync::<Router<std::sync::Arc<String>>>();
     std::panic::set_hook(Box::new(|_| {}));
     let stdin = std::io::stdin();
     let stdout = std::io::stdout();
@@ -324,11 +329,14 @@ fn main() {
                 let r = &routers[t[1]];
                 writeln!(out, "{}", search_line(r, t[1], &unhex(t[2]))).unwrap();
             }
-            // threads <rid> <nthreads> <path>... : every thread searches every path on the shared router
+            // threads <rid> <nthreads> <rounds> <path>... : every thread searches every path on the shared
+            // router, <rounds> times; a result line is printed for the first round and for every later
+            // result that differs from the thread's first answer for that path
             "threads" => {
                 let r = &routers[t[1]];
                 let n: usize = t[2].parse().unwrap();
-                let paths: Vec<Vec<u8>> = t[3..].iter().map(|p| unhex(p)).collect();
+                let rounds: usize = t[3].parse().unwrap();
+                let paths: Vec<Vec<u8>> = t[4..].iter().map(|p| unhex(p)).collect();
                 let lines: Vec<Vec<String>> = std::thread::scope(|s| {
                     let hs: Vec<_> = (0..n)
                         .map(|k| {
@@ -336,9 +344,18 @@ fn main() {
                             let rid = t[1];
                             s.spawn(move || {
                                 let m = paths.len();
-                                (0..m)
-                                    .map(|j| search_line(r, rid, &paths[(j + k) % m]))
-                                    .collect::<Vec<_>>()
+                                let first: Vec<String> =
+                                    (0..m).map(|j| search_line(r, rid, &paths[(j + k) % m])).collect();
+                                let mut out = first.clone();
+                                for _ in 1..rounds {
+                                    for j in 0..m {
+                                        let l = search_line(r, rid, &paths[(j + k) % m]);
+                                        if l != first[j] {
+                                            out.push(l);
+                                        }
+                                    }
+                                }
+                                out
                             })
                         })
                         .collect();
